@@ -581,6 +581,15 @@ def _grid_chunk(chunk, seed):
                 node = b[0][1]
                 g.wait(node.overwrite(MutableData(b"second %d" % variant)))
                 g.quiesce()
+                # the other publishers: an in-place partial update (Publish.update for MDMF), a modify() round and a repair
+                bv = g.wait(node.get_best_mutable_version())
+                if bv and bv[0][0] == "ok":
+                    g.wait(bv[0][1].update(MutableData(b"XY"), 3))
+                    g.quiesce()
+                g.wait(node.modify(lambda old, sm, first: old + b"!"))
+                g.quiesce()
+                cr = g.wait(node.check_and_repair(Monitor()))
+                g.quiesce()
                 u = node.get_cap()
                 wk, si = u.writekey, u.get_storage_index()
                 checks = 0
@@ -669,5 +678,5 @@ MANIFEST = {
     "engine": "E",
     "technique": "differential exhaustive enumeration: every derivation function and end-to-end secret chain over the full product of small input alphabets against a hashlib-only implementation of the specification pinned by published vectors",
     "text": "An independent hashlib-only implementation of the tagged SHA-256d derivations (written from docs/specifications and replayed against the project's published known-answer vectors) is compared byte for byte with the real code: every key/secret function of hashutil over the full product of its argument alphabets, and the chains client secret -> file secret -> per-server lease secret (MutableFileNode, immutable Checker, upload server selector against stub storage servers), write key -> read key -> storage index (all cap classes), write enabler, data key, RSA key -> write key/fingerprint, convergent key -> storage index, and directory child-cap encryption.",
-    "note": "Finite alphabets: detects structural mistakes (tag, order, truncation, netstring, wrong seed), which do not depend on the input. The values that reach real storage servers during a real immutable upload, check(add_lease=True) and SDMF/MDMF create+overwrite on the virtual grid (lease secrets, write enabler, storage index) are compared with the same reference.",
+    "note": "Finite alphabets: detects structural mistakes (tag, order, truncation, netstring, wrong seed), which do not depend on the input. The values that reach real storage servers during a real immutable upload, check(add_lease=True) and SDMF/MDMF create, overwrite, in-place update, modify and check-and-repair on the virtual grid (lease secrets, write enabler, storage index) are compared with the same reference.",
 }
